@@ -21,7 +21,8 @@ ASSUMPTIONS = [
 # clusters of types that collide when requested concurrently
 CLUSTERS = {
     "node": {"types": ["Node", "ListNode", "Holder", "Outer1", "Outer2", "OptNode", "DictStrNode"],
-             "recipes": ["plain", "plain", "chain_node_children", "scoped_node_value", "nm_camel", "dumper_scoped"], "w": 5},
+             "recipes": ["plain", "plain", "chain_node_children", "scoped_node_value", "nm_camel", "dumper_scoped",
+                         "nm_scoped_upper", "nm_scoped_node"], "w": 5},
     "tree": {"types": ["Tree"], "recipes": ["plain", "nm_omit_default"], "w": 2},
     "mutual": {"types": ["RA", "RB"], "recipes": ["plain", "nm_camel_shared"], "w": 3},
     "linked": {"types": ["LinkedInt", "LinkedStr", "LinkedBool"], "recipes": ["plain", "scoped_linked_head"], "w": 2},
@@ -30,9 +31,12 @@ CLUSTERS = {
     "models": {"types": ["M1", "M2", "M3", "ListM1", "ListM2", "UM1M3", "UM3M1", "OptM1", "DictStrM1", "Inner", "NT", "TD", "AT",
                          "WithDefaults", "WithExtra", "PM"],
                "recipes": ["plain", "nm_camel", "nm_extra_collect", "chain_int_shared", "scoped_int", "validator_inner",
-                           "nm_as_list"], "w": 2},
+                           "nm_as_list", "nm_maps", "nm_maps"], "w": 3},
     "generic": {"types": ["GInt", "GBool", "GStr", "GListInt", "PairIntStr", "PairStrInt", "PairBoolStr", "ListInt", "listInt",
-                          "SeqInt", "UIntStr", "UStrInt"], "recipes": ["plain", "chain_int_last"], "w": 1},
+                          "SeqInt", "UIntStr", "UStrInt", "ListingA", "ListingB"], "recipes": ["plain", "chain_int_last"], "w": 1},
+    "modules": {"types": ["ListingA", "ListingB"], "recipes": ["plain"], "w": 1},
+    "unions": {"types": ["UM1M3", "UM3M1", "ULM1LM2", "ULM2LM1", "UDM1DM2", "UDM2DM1", "UDupAB", "UDupBA", "UIntStr", "UStrInt",
+                         "OptInt", "UIntNone", "PipeIntNone"], "recipes": ["plain"], "w": 1},
 }
 CONV_CLUSTER = ["Outer", "OuterSame", "Inner", "ListInner", "OptInner", "DictInner", "InnerTags", "M1M2", "InnerSame"]
 
@@ -114,12 +118,19 @@ def gen_policy(rng, n_threads):
     return {"kind": "rr", "q": rng.choice([1, 2, 7, 50, 500, 5000])}
 
 
+# where shared state is read and written: opcode-level preemption (thorough tier) is confined to these files
+INSTR_FILES = frozenset({
+    "_internal/morphing/facade/retort.py", "_internal/conversion/facade/retort.py", "_internal/retort/builtin_mediator.py",
+    "_internal/retort/operating_retort.py", "_internal/code_tools/compiler.py",
+})
+
 # the retort's lookup / creation / caching code (C12's anchors): preemption points are biased towards it
 HOT_FILES = frozenset({
     "_internal/morphing/facade/retort.py", "_internal/conversion/facade/retort.py", "_internal/retort/searching_retort.py",
     "_internal/retort/builtin_mediator.py", "_internal/retort/operating_retort.py", "_internal/retort/request_bus.py",
     "_internal/retort/base_retort.py", "_internal/retort/routers.py", "_internal/code_tools/compiler.py",
     "_internal/utils.py", "_internal/morphing/facade/func.py", "_internal/conversion/facade/func.py",
+    "_internal/type_tools/normalize_type.py",      # the process-wide normaliser and its cache are shared state too
 })
 
 
@@ -144,23 +155,35 @@ def gen(seed, cfg=None):
             handle["recipe"] = rng.choice(CLUSTERS[cluster]["recipes"])
         first = gen_program(rng, cluster, 1)[0] if same_first else None
         programs = [gen_program(rng, cluster, rng.choice([1, 1, 2, 3, 4]), first) for _ in range(n_threads)]
-    return {
-        "engine": "schedsim", "seed": seed, "cluster": cluster, "handle": handle, "threads": programs,
+    prologue = []
+    if cluster != "conv" and rng.random() < 0.3:
+        # the retort is already warm for something else when the threads start racing
+        prologue = [op for op in gen_program(rng, cluster, rng.choice([1, 2])) if op["op"] in ("load", "dump")]
+    scn = {
+        "engine": "schedsim", "seed": seed, "cluster": cluster, "handle": handle, "prologue": prologue, "threads": programs,
         "policy": gen_policy(rng, n_threads), "norm_cache": rng.choice([1, 2, 8, 128, 128]),
     }
+    if (cfg or {}).get("instr_share", 0) > 0 and rng.random() < cfg["instr_share"]:
+        scn["granularity"] = "instr"    # opcode-level preemption inside the hot files
+    return scn
 
 
 # ------------------------------------------------------------------------------------------------
 # references
 
 def _solo_desc(scn, t):
-    return {"op": "solo", "handle": scn["handle"], "program": scn["threads"][t], "norm_cache": scn.get("norm_cache", 128)}
+    d = {"op": "solo", "handle": scn["handle"], "program": scn["threads"][t], "norm_cache": scn.get("norm_cache", 128)}
+    if scn.get("prologue"):
+        d["prologue"] = scn["prologue"]
+    if scn.get("granularity") == "instr":
+        d["granularity"] = "instr"
+    return d
 
 
 def _post_ops(scn):
     """Fresh facade request, on the now-warm retort, for every type/converter any thread touched."""
     seen = []
-    for prog in scn["threads"]:
+    for prog in [scn.get("prologue") or [], *scn["threads"]]:
         for op in prog:
             if "t" in op:
                 k = ("get_loader" if op["op"] in ("load", "get_loader") else "get_dumper", op["t"])
@@ -175,7 +198,7 @@ def _post_ops(scn):
 
 
 def refs_needed(scn):
-    out = []
+    out = [d for d in ops.static_ref_descs([scn["handle"]], scn.get("prologue") or []) if d is not None]
     for t, prog in enumerate(scn["threads"]):
         out.extend(d for d in ops.static_ref_descs([scn["handle"]], prog) if d is not None)
         if _needs_solo(scn["policy"]):
@@ -192,7 +215,8 @@ def compute_ref(desc):
     knobs.set_norm_cache(128)
     if desc["op"] == "solo":
         scn = {"handle": desc["handle"], "threads": [desc["program"]], "policy": {"kind": "solo"},
-               "norm_cache": desc["norm_cache"]}
+               "prologue": desc.get("prologue") or [],
+               "norm_cache": desc["norm_cache"], "granularity": desc.get("granularity", "line")}
         res = execute(scn, None)
         return {"steps": res["steps"][0], "hot": res["hot"].get(0, {})}
     return ops.compute_ref(desc)
@@ -244,6 +268,7 @@ def execute(scn, refs):  # noqa: C901, PLR0912, PLR0915
     knobs.set_norm_cache(scn.get("norm_cache", 128))
     main_world = ops.World([scn["handle"]])
     n = len(scn["threads"])
+    prologue_out = [main_world.run(op)[0] for op in scn.get("prologue") or []]     # single-threaded, unmonitored
     solo = [{"steps": 1, "hot": {}} for _ in range(n)]
     if refs is not None and _needs_solo(scn["policy"]):
         for t in range(n):
@@ -257,6 +282,8 @@ def execute(scn, refs):  # noqa: C901, PLR0912, PLR0915
         budget = 1_500_000
     sched = Scheduler(policy, max_steps=budget, wall_timeout=90.0, keep_log=bool(scn.get("keep_log")))
     sched.hot_files = HOT_FILES
+    sched.instr = scn.get("granularity") == "instr"
+    sched.instr_files = INSTR_FILES
     patcher.sched = sched
     results = [[] for _ in range(n)]
     worlds = [ops.World(None, share=main_world) for _ in range(n)]
@@ -317,6 +344,10 @@ def execute(scn, refs):  # noqa: C901, PLR0912, PLR0915
                                                                     "threads": [seen[(name, idx)], tid]}})
             break
         seen[(name, idx)] = tid
+    for op, d, obs in zip(scn.get("prologue") or [], ops.static_ref_descs([scn["handle"]], scn.get("prologue") or []), prologue_out):
+        if d is not None and obs != refs[canon(d)]:
+            violations.append({"class": classify(refs[canon(d)], obs), "phase": "prologue", "op": op,
+                               "expected": refs[canon(d)], "observed": obs})
     # oracle 2: every op equals its single-threaded pristine reference
     if sched.failure is None:
         for t, prog in enumerate(scn["threads"]):
@@ -438,6 +469,11 @@ def candidates(scn):  # noqa: C901
             s = dict(scn)
             s["threads"] = [newp if j == t else p for j, p in enumerate(threads)]
             yield s
+    if scn.get("prologue"):
+        yield {**scn, "prologue": []}
+        if len(scn["prologue"]) > 1:
+            for i in range(len(scn["prologue"])):
+                yield {**scn, "prologue": [o for j, o in enumerate(scn["prologue"]) if j != i]}
     # simpler options
     h = scn["handle"]
     if h.get("recipe", "plain") != "plain":
@@ -523,13 +559,14 @@ def prelim_key(scn, result):
 def summarize(scn, res):
     st = res.get("stats", {})
     sw = res.get("switches") or []
-    ilv = digest([scn["handle"], scn["threads"], [(s["from"], s["at"], s["to"]) for s in sw]])
+    ilv = digest([scn["handle"], scn.get("prologue"), scn["threads"], [(s["from"], s["at"], s["to"]) for s in sw]])
     return {"ilv": ilv, "nontrivial": st.get("overlap_steps", 0) > 0, "policy": scn["policy"]["kind"],
             "cluster": scn.get("cluster"), "threads": len(scn["threads"]), "steps": st.get("total_steps", 0),
             "preemptions": st.get("preemptions", 0), "lock_blocks": st.get("lock_blocks", 0),
             "overlap_steps": st.get("overlap_steps", 0), "site_hits": st.get("site_hits", {}),
             "both_missed_cache": st.get("both_missed_cache", 0), "counter_ids": st.get("counter_ids", 0),
-            "digest": st.get("digest"), "norm_cache": scn.get("norm_cache")}
+            "digest": st.get("digest"), "norm_cache": scn.get("norm_cache"), "sweep": bool(scn.get("sweep")),
+            "instr": scn.get("granularity") == "instr"}
 
 
 def coverage(oks, tier):
@@ -565,6 +602,8 @@ def coverage(oks, tier):
             "runs_with_overlapping_requests": sum(1 for r in oks if r["summary"]["nontrivial"]),
         },
         "policies": dict(pol), "clusters": dict(clu),
+        "runs_at_opcode_granularity_in_hot_files": sum(1 for r in oks if r["summary"].get("instr")),
+        "complete_single_preemption_sweep_runs": sum(1 for r in oks if r["summary"].get("sweep")),
         "reach_probes": {**{k: sites.get(k, 0) for k in probe_sites()},
                          "unavailable": [k for k, v in probe_sites().items() if v is None],
                          "both_threads_missed_facade_cache": sum(r["summary"]["both_missed_cache"] for r in oks),
